@@ -186,6 +186,13 @@ func RenderPred(p Pred, o RenderOpts) string {
 		if t.CorrOuter != "" {
 			o.feat("in.subquery.correlated")
 			outer := t.CorrOuter
+			// inside a selector a key that is not a plain word is a quoted key
+			for _, r := range outer {
+				if !(r == '_' || r >= '0' && r <= '9' || r >= 'a' && r <= 'z' || r >= 'A' && r <= 'Z') {
+					outer = "'" + outer + "'"
+					break
+				}
+			}
 			if o.Qualifier != "" {
 				outer = o.Qualifier + "." + outer // under an alias the outer row is {alias: row}
 			}
